@@ -46,12 +46,21 @@ def scenarios(seed, tier):
     if tier != "quick":
         combos += [("compress", True, "small", 1), ("decompress", True, "multi", 1), ("compress", True, "multi", 2),
                    ("decompress", False, "multi", 2)]
+        # the thorough tier: every combination, with larger inputs (more read/write positions) and three operands
+        for mode in ("compress", "decompress"):
+            for keep in (False, True):
+                for size in ("small", "multi", "large"):
+                    for nops in (1, 2, 3):
+                        if (mode, keep, size, nops) not in combos and not (size == "large" and nops == 3):
+                            combos.append((mode, keep, size, nops))
     for i, (mode, keep, size, nops) in enumerate(combos):
-        n = [1, 2, 4][(i + seed) % 3]
+        n = [1, 2, 4, 16][(i + seed) % 4] if tier != "quick" else [1, 2, 4][(i + seed) % 3]
         ops = []
         for j in range(nops):
             if size == "small":
                 d = plain.seg_bytes(("text", 300 + 40 * j, r.randrange(1 << 30)))
+            elif size == "large":
+                d = plain.seg_bytes(("text", 120000, r.randrange(1 << 30))) + r.randbytes(500000)
             else:
                 d = plain.seg_bytes(("text", 50000, r.randrange(1 << 30))) + r.randbytes(60000)
             name = "f%d.dat" % j
